@@ -91,6 +91,9 @@ func parseMerge(out string) ([]mCase, error) {
 
 var fileDir = map[string]string{"R": "", "A": "a", "B": "b", "C": "c", "D": "c/d"}
 
+// fileName: A and B are siblings whose directories and file names sort in opposite orders (a/zeta.yml, b/apple.yml)
+var fileName = map[string]string{"R": "Taskfile.yml", "A": "zeta.yml", "B": "apple.yml", "C": "Taskfile.yml", "D": "Taskfile.yml"}
+
 // fileTasksYAML: the fixed files of Merge.tla (FileTasks), with attributes to be carried over.
 var fileTasksYAML = map[string]string{
 	"R": `  r1:
@@ -177,10 +180,14 @@ func writeTree(root string, tree map[string][]mInc, clash bool) {
 		if f == "C" {
 			b.WriteString("vars:\n  CV: {sh: 'pwd # c'}\n")
 		}
+		if f == "A" || f == "B" {
+			// both siblings define SV: the merge order decides which value the tree ends up with
+			fmt.Fprintf(&b, "vars:\n  SV: from-%s\n", f)
+		}
 		if incs := tree[f]; len(incs) > 0 {
 			b.WriteString("includes:\n")
 			for _, inc := range incs {
-				target := relPath(f, inc.File)
+				target := relPath(f, inc.File) + "/" + fileName[inc.File]
 				if inc.Missing == "optional" || inc.Missing == "required" {
 					target = "./nope"
 				}
@@ -212,7 +219,7 @@ func writeTree(root string, tree map[string][]mInc, clash bool) {
 		if f == "R" && clash {
 			b.WriteString("  'x:t1':\n    cmds:\n      - echo \"O|R.x:t1|$PWD|{{.IV}}\"\n")
 		}
-		os.WriteFile(filepath.Join(dir, "Taskfile.yml"), []byte(b.String()), 0o644)
+		os.WriteFile(filepath.Join(dir, fileName[f]), []byte(b.String()), 0o644)
 	}
 }
 
@@ -453,7 +460,7 @@ func evalMerge(c mCase, loads int) (ms []mMismatch, unstable *mMismatch) {
 				var so bytes.Buffer
 				se = newExec(filepath.Join(root, fileDir[w.File]), &so)
 				// standalone parse of the defining file without its own includes
-				if err := safeSetupNoIncludes(se, filepath.Join(root, fileDir[w.File])); err == nil {
+				if err := safeSetupNoIncludes(se, filepath.Join(root, fileDir[w.File], fileName[w.File])); err == nil {
 					standalone[w.File] = se
 				} else {
 					se = nil
@@ -558,8 +565,8 @@ func evalMerge(c mCase, loads int) (ms []mMismatch, unstable *mMismatch) {
 }
 
 // safeSetupNoIncludes parses one file alone: a copy without its includes section.
-func safeSetupNoIncludes(e *task.Executor, dir string) error {
-	b, err := os.ReadFile(filepath.Join(dir, "Taskfile.yml"))
+func safeSetupNoIncludes(e *task.Executor, file string) error {
+	b, err := os.ReadFile(file)
 	if err != nil {
 		return err
 	}
